@@ -33,8 +33,7 @@ def _run_job(args):
 
 def _run_twin(args):
     pid, tier, seed = args
-    mod = prop_module(pid)
-    job = mod.jobs(tier)[0]
+    job = (_JOBS if _JOBS is not None else prop_module(pid).jobs(tier))[0]
     twin = Job(job.prop, job.template, _twin_fn(job.fn, job.prop), dict(job.cfg), max_paths=1)
     return explore_job(twin, seed=seed)
 
@@ -93,6 +92,13 @@ def cmd_run(pid, tier, seed):
     mod = prop_module(pid)
     global _JOBS
     jobs = mod.jobs(tier)
+    if tier == 'thorough':
+        # the thorough tier explores everything the quick tier does, and more
+        seen = {j.key() for j in jobs}
+        for j in mod.jobs('quick'):
+            if j.key() not in seen:
+                seen.add(j.key())
+                jobs.append(j)
     _JOBS = jobs
     second = (tier == 'thorough')
     nproc = min(int(os.environ.get('VERIF_JOBS', '16')), max(1, len(jobs)))
